@@ -506,9 +506,9 @@ func kindOr(k string) string {
 func init() {
 	register(&Prop{
 		ID: "C14", Run: runC14, Quick: 1200, Thorough: 30000, Level: "exploration",
-		Rule: "one run = drawn network and chain, then 6-24 pool submissions (v1 or v2 sets of 1-4 possibly dependent transactions: fresh / partly known / conflicting with the pool at a drawn position / invalid at a drawn position / all known) with lookups of every pooled v1 id, v2 id and unknown ids on both lookup functions, mutation and reordering of returned values and of the caller's own transactions after each call, and an occasional block assembled from the pool; distinct = abstract trace of (mode, version, error, known); non-trivial = at least one non-fresh set",
-		Real: []string{"chain.Manager (pool)", "chain.DBStore"},
-		Stub: []string{"disk: simdisk.DB"},
+		Rule:        "one run = drawn network and chain, then 6-24 pool submissions (v1 or v2 sets of 1-4 possibly dependent transactions: fresh / partly known / conflicting with the pool at a drawn position / invalid at a drawn position / all known) with lookups of every pooled v1 id, v2 id and unknown ids on both lookup functions, mutation and reordering of returned values and of the caller's own transactions after each call, and an occasional block assembled from the pool; distinct = abstract trace of (mode, version, error, known); non-trivial = at least one non-fresh set",
+		Real:        []string{"chain.Manager (pool)", "chain.DBStore"},
+		Stub:        []string{"disk: simdisk.DB"},
 		Assumptions: []string{"pool contents are observed through PoolTransactions / V2PoolTransactions before and after each call"},
 	})
 }
